@@ -138,7 +138,7 @@ def _rand_index(rng, shape, want=None):
     return {'t': 'int', 'v': rng.randrange(shape[0]) - rng.choice([0, shape[0]])}, False
 
 
-def _pattern(rng, m, n, fmt):
+def _pattern(rng, m, n, fmt, dups=True):
     """COO pattern (rows, cols) of a partial of shape (m, n) in the entry order the format stores."""
     if fmt == 'dense':
         return [i for i in range(m) for _ in range(n)], [j for _ in range(m) for j in range(n)]
@@ -151,7 +151,7 @@ def _pattern(rng, m, n, fmt):
     if fmt == 'rc':
         pass                                   # declared rows/cols: any order, no duplicates
     elif fmt == 'coo':
-        if rng.random() < 0.5 and k >= 1:      # scipy coo may repeat a coordinate
+        if dups and rng.random() < 0.5 and k >= 1:      # scipy coo may repeat a coordinate
             pick.append(rng.choice(pick))
             rng.shuffle(pick)
     elif fmt == 'csr':
@@ -165,7 +165,31 @@ def gen_case(rng, tier='quick', force=None):
     force = force or {}
     owner = force.get('owner') or rng.choice(['model', 'model', 'g', 'g', 'g', 'comp'])
     nsteps = 3
-    case = {'owner': owner, 'vseed': rng.randrange(10 ** 6)}
+    # 'nodup': no position of dr/do is hit twice (DenseMatrix keeps a plain array and assigns);
+    # 'dup': repeated source elements / shared sources (COO data summed, CSC/CSR accumulate)
+    mode = force.get('mode') or rng.choice(['dup', 'dup', 'dup', 'nodup', 'nodup'])
+    case = {'owner': owner, 'vseed': rng.randrange(10 ** 6), 'mode': mode}
+    # history
+    r = rng.random()
+    if r < 0.35:
+        hist = [['lin', 0]]
+    elif r < 0.6:
+        hist = [['lin', 0], ['lin', 1], ['lin', 2]]
+    else:
+        hist = [['lin', rng.randrange(nsteps)]]
+        cs = False
+        for _ in range(rng.choice([2, 3, 4])):
+            if rng.random() < 0.5:
+                cs = not cs
+                hist.append(['cs', int(cs)])
+            hist.append(['lin', rng.randrange(nsteps)])
+    case['hist'] = hist
+    # complex-step histories currently run into two known defects with scipy-coo and rows/cols
+    # partials; most of them avoid those formats so that the rest of the history is still compared
+    safe = any(h[0] == 'cs' for h in hist) and rng.random() < 0.75
+    # the reverse linear transfer (np.bincount) does not take complex vectors either: the
+    # matrix-free reverse product under complex step is exercised in a quarter of those histories
+    case['cs_dict_rev'] = bool(any(h[0] == 'cs' for h in hist) and rng.random() < 0.25)
     # sources outside the owning group
     srcs = []
     for k in range(rng.choice([1, 1, 2])):
@@ -184,6 +208,7 @@ def gen_case(rng, tier='quick', force=None):
                                  'units': rng.choice([None, 'm', 'm', 'km'])})
         nin = rng.choice([1, 2, 2, 3])
         two_level = False
+        taken = {}                       # nodup mode: source -> flat positions already used
         for ii in range(nin):
             # prefer sources inside the owner (other components) so that dr/do gets the columns;
             # reuse a source already used by this component to get duplicates across sub-jacobians
@@ -197,7 +222,34 @@ def gen_case(rng, tier='quick', force=None):
             sname, sshape, sunits = src
             levels = []
             r = rng.random()
-            if r < 0.12:
+            if mode == 'nodup':
+                n_src = int(np.prod(sshape))
+                free = [q for q in range(n_src) if q not in taken.setdefault(tuple(sname), set())]
+                if not free:
+                    continue
+                if len(free) == n_src and r < 0.15:
+                    pick = list(range(n_src))            # whole source, no src_indices
+                else:
+                    pick = rng.sample(free, rng.randrange(1, len(free) + 1))
+                    neg = [q - n_src if rng.random() < 0.35 else q for q in pick]
+                    if len(sshape) == 2 and rng.random() < 0.5:
+                        i0 = [q // sshape[1] for q in pick]
+                        i1 = [q % sshape[1] for q in pick]
+                        i0 = [a - sshape[0] if rng.random() < 0.3 else a for a in i0]
+                        i1 = [a - sshape[1] if rng.random() < 0.3 else a for a in i1]
+                        levels.append({'idx': {'t': 'tup', 'v': [{'t': 'list', 'v': i0},
+                                                                 {'t': 'list', 'v': i1}]},
+                                       'flat': False})
+                    else:
+                        levels.append({'idx': {'t': 'list', 'v': neg}, 'flat': True})
+                    if rng.random() < 0.3 and not two_level and len(pick) >= 1:
+                        k2 = rng.randrange(1, len(pick) + 1)
+                        sel = rng.sample(range(len(pick)), k2)
+                        sel = [q - len(pick) if rng.random() < 0.35 else q for q in sel]
+                        levels.append({'idx': {'t': 'list', 'v': sel}, 'flat': True})
+                        two_level = True
+                taken[tuple(sname)].update(int(q) for q in chain_positions(sshape, levels).ravel())
+            elif r < 0.12:
                 pass                                     # whole source, no src_indices
             else:
                 spec, flat = _rand_index(rng, sshape)
@@ -227,6 +279,10 @@ def gen_case(rng, tier='quick', force=None):
                 in_units = rng.choice(['m', 'cm'])     # units on the input only: no conversion
             comp['ins'].append({'name': 'x%d' % ii, 'size': size, 'shape': list(pos.shape) or [1],
                                 'units': in_units, 'src': sname, 'levels': levels})
+        if not comp['ins']:
+            sname, sshape, sunits = avail[0]
+            comp['ins'].append({'name': 'x0', 'size': int(np.prod(sshape)), 'shape': list(sshape),
+                                'units': None, 'src': sname, 'levels': []})
         comp['wrap'] = two_level
         # partials
         for o in comp['outs']:
@@ -237,11 +293,12 @@ def gen_case(rng, tier='quick', force=None):
             for wname, n in wrts:
                 if rng.random() < 0.2 and not (kind == 'imp' and wname == o['name']):
                     continue
-                fmts = [f for f in FORMATS if f != 'diag' or m == n]
+                fmts = [f for f in FORMATS if (f != 'diag' or m == n)
+                        and not (safe and f in ('rc', 'coo'))]
                 fmt = force.get('fmt') or rng.choice(fmts)
                 if fmt == 'diag' and m != n:
                     fmt = 'dense'
-                rows, cols = _pattern(rng, m, n, fmt)
+                rows, cols = _pattern(rng, m, n, fmt, mode == 'dup')
                 nnz = len(rows)
                 part = {'of': o['name'], 'wrt': wname, 'fmt': fmt, 'rows': rows, 'cols': cols,
                         'const': rng.random() < 0.2,
@@ -252,21 +309,6 @@ def gen_case(rng, tier='quick', force=None):
         for o in comp['outs']:
             avail.append(([comp['name'], o['name']], o['shape'], o['units']))
     case['comps'] = comps
-    # history
-    r = rng.random()
-    if r < 0.35:
-        hist = [['lin', 0]]
-    elif r < 0.6:
-        hist = [['lin', 0], ['lin', 1], ['lin', 2]]
-    else:
-        hist = [['lin', rng.randrange(nsteps)]]
-        cs = False
-        for _ in range(rng.choice([2, 3, 4])):
-            if rng.random() < 0.5:
-                cs = not cs
-                hist.append(['cs', int(cs)])
-            hist.append(['lin', rng.randrange(nsteps)])
-    case['hist'] = hist
     case['totals'] = bool(owner == 'model' and all(c['kind'] == 'exp' for c in comps)
                           and rng.random() < 0.5)
     return case
@@ -330,25 +372,17 @@ def case_subjacs(case):
         k += sz
     n_in = k
     subs = []
-    if case['owner'] == 'model':
-        for s in case['srcs']:
-            nm = 'ivc.' + s['name']
-            sz = int(np.prod(s['shape']))
-            subs.append({'block': 'do', 'fmt': 'rc', 'm': sz, 'n': sz, 'rows': list(range(sz)),
-                         'cols': list(range(sz)), 'part': None, 'row0': o_start[nm],
-                         'col0': o_start[nm], 'src': None, 'factor': None, 'ncol_parent': sz,
-                         'key': [nm, nm]})
     for c in case['comps']:
         cp = comp_path(case, c)
         osz = {o['name']: int(np.prod(o['shape'])) for o in c['outs']}
         byname = {i['name']: i for i in c['ins']}
-        # OpenMDAO declares the -I of an explicit component's outputs first (at _setup_partials)
+        # ExplicitComponent._setup_partials adds the -I of its outputs after the declared partials
         own = []
         if c['kind'] == 'exp' and case['owner'] != 'comp':
             for o in c['outs']:
                 nm = cp + '.' + o['name']
                 sz = osz[o['name']]
-                own.append({'block': 'do', 'fmt': 'rc', 'm': sz, 'n': sz, 'rows': list(range(sz)),
+                own.append({'block': 'do', 'fmt': 'diag', 'm': sz, 'n': sz, 'rows': list(range(sz)),
                             'cols': list(range(sz)), 'part': None, 'row0': o_start[nm],
                             'col0': o_start[nm], 'src': None, 'factor': None, 'ncol_parent': sz,
                             'key': [nm, nm]})
@@ -374,7 +408,15 @@ def case_subjacs(case):
                     wn = cp + '.' + p['wrt']
                     sub.update(block='di', col0=i_start[wn], ncol_parent=i['size'])
             decl.append(sub)
-        subs.extend(own + decl)
+        subs.extend(decl + own)
+    if case['owner'] == 'model':
+        for sr in case['srcs']:
+            nm = 'ivc.' + sr['name']
+            sz = int(np.prod(sr['shape']))
+            subs.append({'block': 'do', 'fmt': 'diag', 'm': sz, 'n': sz, 'rows': list(range(sz)),
+                         'cols': list(range(sz)), 'part': None, 'row0': o_start[nm],
+                         'col0': o_start[nm], 'src': None, 'factor': None, 'ncol_parent': sz,
+                         'key': [nm, nm]})
     return subs, n_out, n_in
 
 
@@ -382,7 +424,7 @@ def inexact(case):
     for c in case['comps']:
         for i in c['ins']:
             _, _, sunits, inside = src_info(case, i['src'])
-            if inside and sunits and i['units'] and sunits != i['units'] \
+            if sunits and i['units'] and sunits != i['units'] \
                     and (sunits, i['units']) not in EXACT_UNITS:
                 return True
     return False
@@ -641,7 +683,7 @@ def build_problem(case, variant, solver='krylov'):
     if any(h[0] == 'cs' for h in case['hist']):
         # linear vectors are only allocated complex when a gradient-based nonlinear solver is
         # present (check_allocate_complex_ln); it is never run here
-        model.nonlinear_solver = om.NewtonSolver(solve_subsystems=False)
+        model.nonlinear_solver = om.NewtonSolver(solve_subsystems=False, iprint=-1)
 
     def owner():
         path = owner_path(case)
@@ -713,6 +755,11 @@ def run_variant(case, variant):
                     if J is None:
                         raise Infra('no assembled jacobian on the owning system')
                     ob['jac'] = type(J).__name__
+                    if 'keys_do' not in res:
+                        for blk, attr in (('keys_do', '_dr_do_mtx'), ('keys_di', '_dr_di_mtx')):
+                            mtx = getattr(J, attr, None)
+                            sm = getattr(mtx, '_submats', None)
+                            res[blk] = None if sm is None else [list(k) for k in sm.keys()]
                     D = J.todense()
                     if D.shape != (n_out, n_out + n_in):
                         # a missing dr/di block is a block of zeros
@@ -728,6 +775,12 @@ def run_variant(case, variant):
                 _setvec(S._dinputs, di, cs)
                 S.run_apply_linear('fwd')
                 ob['fwd'] = _enc(S._dresiduals.asarray().copy(), cs)
+                ob['cs'] = cs
+                ob['k'] = arg
+                ob['tag'] = tag
+                if variant == 'dict' and cs and not case.get('cs_dict_rev'):
+                    res['obs'].append(ob)
+                    continue
                 stage = 'apply_rev'
                 S._doutputs.set_val(0.0)
                 S._dinputs.set_val(0.0)
@@ -738,9 +791,6 @@ def run_variant(case, variant):
                 if n_in:
                     ri[~ext] = 0.0
                 ob['rev_i'] = _enc(ri, cs)
-                ob['cs'] = cs
-                ob['k'] = arg
-                ob['tag'] = tag
                 res['obs'].append(ob)
     except Infra:
         raise
@@ -767,3 +817,574 @@ def run_totals(case, variant):
                             for k, v in tot.items()}}
     except Exception as e:
         return {'error': type(e).__name__, 'msg': str(e)[:300]}
+
+
+# ------------------------------------------------------------------------------------------------
+# exact totals (only for all-explicit feed-forward models owned by the top-level group)
+
+def exact_totals(case):
+    k = case['hist'][0][1]
+    Jdo, _, n_out, _ = expected_operator(case, k, False)
+    A = [[Jdo.get((r, c), (Fraction(0), Fraction(0)))[0] for c in range(n_out)] for r in range(n_out)]
+    outs, _ = layout(case)
+    start = {}
+    q = 0
+    for nm, sz in outs:
+        start[nm] = (q, sz)
+        q += sz
+    wrt = ['ivc.' + s['name'] for s in case['srcs']]
+    cols = [c for w in wrt for c in range(start[w][0], start[w][0] + start[w][1])]
+    # solve A X = -E[:, cols]
+    n = n_out
+    M = [A[r][:] + [Fraction(-1) if r == c else Fraction(0) for c in cols] for r in range(n)]
+    for col in range(n):
+        piv = next((r for r in range(col, n) if M[r][col] != 0), None)
+        if piv is None:
+            return None
+        M[col], M[piv] = M[piv], M[col]
+        pv = M[col][col]
+        M[col] = [x / pv for x in M[col]]
+        for r in range(n):
+            if r != col and M[r][col] != 0:
+                f = M[r][col]
+                M[r] = [a - f * b for a, b in zip(M[r], M[col])]
+    X = [row[n:] for row in M]
+    res = {}
+    for of, (o0, osz) in start.items():
+        if of.startswith('ivc.'):
+            continue
+        cq = 0
+        for w in wrt:
+            wsz = start[w][1]
+            res['%s|%s' % (of, w)] = [[X[o0 + i][cq + j] for j in range(wsz)] for i in range(osz)]
+            cq += wsz
+    return res
+
+
+# ------------------------------------------------------------------------------------------------
+# structural attribution of failures (for the known-findings signatures)
+
+def do_positions(case):
+    """[(sub, [(r, c), ...])] of the dr/do sub-jacobians, global positions in storage order."""
+    subs, n_out, n_in = case_subjacs(case)
+    out = []
+    for s in subs:
+        if s['block'] != 'do':
+            continue
+        pos = [(s['row0'] + r, s['col0'] + (s['src'][c] if s['src'] is not None else c))
+               for r, c in zip(s['rows'], s['cols'])]
+        out.append((s, pos))
+    return out
+
+
+def do_has_repeated(case):
+    seen = set()
+    for _, pos in do_positions(case):
+        for p in pos:
+            if p in seen:
+                return True
+            seen.add(p)
+    return False
+
+
+def dense_view_hazard(case):
+    """True when DenseMatrix keeps a plain array and some dense sub-jacobian with src_indices and a
+    unit factor shares its view (rows of `of` x the whole source variable) with another
+    sub-jacobian: `view *= factor` then rescales the other one's entries."""
+    if do_has_repeated(case):
+        return False
+    allp = do_positions(case)
+    for s, pos in allp:
+        if s['fmt'] != 'dense' or s['factor'] is None or s['src'] is None:
+            continue
+        own = set(pos)
+        r0, r1 = s['row0'], s['row0'] + s['m']
+        c0, c1 = s['col0'], s['col0'] + s['ncol_parent']
+        for t, tpos in allp:
+            if t is s:
+                continue
+            if any(r0 <= r < r1 and c0 <= c < c1 and (r, c) not in own for r, c in tpos):
+                return True
+    return False
+
+
+def has_fmt(case, fmt, wrt_kind=None):
+    for c in case['comps']:
+        innames = {i['name'] for i in c['ins']}
+        for p in c['parts']:
+            if p['fmt'] == fmt:
+                if wrt_kind is None or (wrt_kind == 'input') == (p['wrt'] in innames):
+                    return True
+    return False
+
+
+def _dec(e):
+    re = [unrat(x) for x in e['re']]
+    im = [unrat(x) for x in e['im']] if 'im' in e else [Fraction(0)] * len(re)
+    return list(zip(re, im))
+
+
+def _close(got, exp, tol):
+    if len(got) != len(exp):
+        return False
+    if tol is None:
+        return got == exp
+    scale = max([1.0] + [abs(float(e[0])) for e in exp] + [abs(float(e[1])) for e in exp])
+    for g, e in zip(got, exp):
+        if abs(float(g[0]) - float(e[0])) > tol * scale or abs(float(g[1]) - float(e[1])) > tol * scale:
+            return False
+    return True
+
+
+def _flat(J):
+    return [x for row in J for x in row]
+
+
+class C11(Property):
+    pid = 'C11'
+    workers = 1
+    tolerance = RTOL_UNITS
+    required_theorems = ['C11_csc_map_correct', 'C11_csr_map_correct', 'C11_add_at_seq',
+                         'C11_buffered_seq', 'C11_buffered_add_partial',
+                         'C11_buffered_add_needs_no_duplicates', 'C11_flag_exact',
+                         'C11_update_is_add_at', 'C11_accumulate', 'C11_accumulate_order',
+                         'C11_all_formats_equal', 'C11_same_dense_same_operator',
+                         'C11_dictionary_equal', 'C11_dense_plain_partial',
+                         'C11_dense_plain_cells_scaled', 'C11_dense_view_scaling_counterexample',
+                         'C11_dtype_switch']
+    rule = ("cases: real OpenMDAO models built by the harness — an IndepVarComp (1-2 sources of rank 1-2, "
+            "units m/km/none) and 1-4 harness-defined explicit/implicit components (1-3 inputs, 1-2 "
+            "outputs) whose partials are declared dense / rows-cols / diagonal / scipy coo (with repeated "
+            "coordinates) / csr / csc with integer values, some constant, some re-set at every "
+            "linearization; inputs connected with src_indices that repeat source elements, negative "
+            "entries, non-flat tuple / slice / 2-D index arrays into 2-D sources, whole-row selection, "
+            "two levels (connect + promotes), several inputs on one source, unit factors "
+            "(m->cm/mm exact, ->km/inch inexact); a 'nodup' mode without any repeated position "
+            "(DenseMatrix plain-array path) and a 'dup' mode; the assembled jacobian owned by the model, "
+            "by a sub-group (dr/do and dr/di) or by one implicit component; histories of 1-5 "
+            "run_linearize calls with changing values and set_complex_step_mode toggles (complex partial "
+            "values and complex seed vectors). Each model is built 4 times (assembled_jac_type dense, "
+            "csc, csr, and no assembled jacobian) and after every linearization todense() and "
+            "run_apply_linear fwd/rev on integer seeds are recorded; for all-explicit models also "
+            "compute_totals with DirectSolver. Non-trivial: the case is valid (setup succeeds) and at "
+            "least one observation was made; distinct by canonical case encoding.")
+    assumptions = ["values are small integers, unit factors 100/1000 are exact in doubles: comparison is "
+                   "exact equality of rationals; cases with a non-dyadic factor (m->km, ->inch) use a "
+                   "relative tolerance of 1e-12 (of the largest entry)",
+                   "compute_totals (an LU solve) is compared at relative 1e-9",
+                   "index semantics reference is real NumPy applied level by level; the unit factors are "
+                   "the harness's own exact table",
+                   "under complex step the matrix-free reverse product is exercised in a quarter of the "
+                   "histories and scipy-coo / rows-cols partials in a quarter (known defects there would "
+                   "otherwise hide the rest of the history)"]
+    trusted_extra = ["scipy: csc_matrix/csr_matrix((data,(row,col))) has one slot per distinct position in "
+                     "column/row-major order and toarray() sums duplicates (contract `slotPos`/`denseAt`, "
+                     "validated per case on the real scipy); sparse/dense matrix @ vector; tocoo() order",
+                     "NumPy: fancy assignment, `a[idx] += v` (buffered) and np.add.at (modelled and proved "
+                     "equal to their cell-wise forms), np.lexsort is a stable sort",
+                     "OpenMDAO's setup (promotion, connection resolution, vector layout, order of "
+                     "sub-jacobians) is an input of the model: the layout and the order are cross-checked "
+                     "against the real system, name resolution is tied only differentially"]
+    level_text = ("The assembly code of all formats is modelled in Lean (as_coo_info with the src_indices "
+                  "column map and unit factor; COO build and slices; the CSC/CSR lexsort / first-occurrence / "
+                  "cumsum / scatter slot map, the within-sub-jacobian duplicate flag, zeroing and the `+=` / "
+                  "np.add.at update; DenseMatrix with summed COO data or the assigned-and-scaled plain array; "
+                  "the matrix-free transfer + apply_fwd / apply_rev; update histories with dtype "
+                  "conversions). Proved for all sub-jacobian lists, values and histories over any commutative "
+                  "semiring: the slot map is correct (one slot per distinct position, column/row-major "
+                  "order); with the exact duplicate flag every update is np.add.at, buffered += equals it "
+                  "only without repeated slots (counterexample proved); after any history the CSC, CSR and "
+                  "summed-COO data represent Σ_subjacs factor·coo independently of order, previous updates "
+                  "and dtype switches; equal dense forms give equal forward and transposed products; the "
+                  "dictionary application equals the triplet operator forward and transposed. The "
+                  "plain-array path of DenseMatrix is proved only under the extra hypothesis that the view "
+                  "scaled by `view *= factor` contains no other sub-jacobian's cells — the code as found "
+                  "violates the full statement (kernel-checked counterexample, reproduced on the "
+                  "implementation and listed as a known finding). Model and implementation are compared "
+                  "path by path (dense / csc / csr / matrix-free, todense and products, real and complex "
+                  "phases) on generated models.")
+    level_note = ("partial where named: DenseMatrix plain array (extra hypothesis, defect); OpenMDAO's setup "
+                  "and scipy/NumPy primitives are contracts (validated per case), not verified; float "
+                  "rounding by exact integer data or tolerance 1e-12. Three further defects of the complex "
+                  "dtype switch (exceptions) are found by the direct oracle and listed as known findings.")
+    technique = "Lean 4 proof (list induction, semiring algebra) + exact differential correspondence on real models"
+    whole_view = True
+
+    # -- probe: does DenseMatrix scale the whole view (code as found) or only the assigned cells? --
+    def setup(self, tier):
+        _om()
+        case = CORPUS_DENSE_VIEW
+        r = run_variant(case, 'dense')
+        if 'error' in r or not r['obs']:
+            raise Infra('probe of DenseMatrix view scaling failed: %s' % r)
+        got = _dec(r['obs'][0]['J'])
+        exp = _flat(expected_obs(case, 0, False, 0)['J'])
+        self.whole_view = got != exp
+
+    def cases(self, rng, tier):
+        n = 80 if tier == 'quick' else 2000
+        for k in range(n):
+            force = {}
+            if k % 10 == 0:
+                force['mode'] = 'nodup'
+            yield gen_case(rng, tier, force)
+
+    # -- real code -------------------------------------------------------------------------------
+    def run_impl(self, case):
+        res = {'variants': {v: run_variant(case, v) for v in VARIANTS}}
+        if case.get('totals'):
+            res['totals'] = {v: run_totals(case, v) for v in ('dense', 'csc', 'dict')}
+        return res
+
+    # -- direct oracle -----------------------------------------------------------------------------
+    def invalid(self, impl):
+        vs = impl['variants']
+        return all('error' in vs[v] and vs[v]['stage'] in ('build', 'setup') for v in VARIANTS)
+
+    def failures(self, case, impl):
+        if self.invalid(impl):
+            return []
+        tol = RTOL_UNITS if inexact(case) else None
+        fails = []
+        vs = impl['variants']
+        bad_value = {}
+        for v in VARIANTS:
+            r = vs[v]
+            for ob in r['obs']:
+                exp = expected_obs(case, ob['k'], ob['cs'], ob['tag'])
+                for key in ('J', 'fwd', 'rev_o', 'rev_i'):
+                    if key not in ob:
+                        continue
+                    e = _flat(exp['J']) if key == 'J' else exp[key]
+                    if not _close(_dec(ob[key]), e, tol):
+                        bad_value.setdefault(v, []).append((ob['tag'], key, ob[key], e))
+        if bad_value:
+            which = '+'.join(sorted(bad_value))
+            attributed = 'none'
+            if which == 'dense' and dense_view_hazard(case) and \
+                    all(k in ('J', 'fwd', 'rev_o') for _, k, _, _ in bad_value['dense']):
+                attributed = 'dense_view_scaled_by_factor'
+            v0 = sorted(bad_value)[0]
+            tag, key, got, e = bad_value[v0][0]
+            fails.append({'what': 'assembled_jac_type=%s: %s differs from the operator defined by the '
+                                  'component partials (Σ factor·coo)' % (v0, key),
+                          'step': tag, 'got': got,
+                          'expected': [[rat(a), rat(b)] for a, b in e],
+                          'sig': {'kind': 'value_mismatch', 'variants': which,
+                                  'attributed': attributed}})
+        errs = {v: vs[v] for v in VARIANTS if 'error' in vs[v]}
+        if errs:
+            groups = {}
+            for v, r in errs.items():
+                groups.setdefault((r['error'], r['stage'] if not r['stage'].startswith('apply')
+                                   else 'apply'), []).append(v)
+            for (err, stage), vv in sorted(groups.items()):
+                which = '+'.join(sorted(vv)) if len(vv) < len(VARIANTS) else 'all'
+                r = errs[vv[0]]
+                nobs = len(r['obs'])
+                lin_steps = [(t, h) for t, h in enumerate(case['hist']) if h[0] == 'lin']
+                # the complex-step state at the failing linearization
+                cs = False
+                seen = 0
+                for h in case['hist']:
+                    if h[0] == 'cs':
+                        cs = bool(h[1])
+                    else:
+                        if seen == nobs:
+                            break
+                        seen += 1
+                attributed = 'none'
+                if err == 'TypeError' and stage == 'linearize' and cs and has_fmt(case, 'coo') \
+                        and which == 'all':
+                    attributed = 'scipy_coo_partial_under_complex_step'
+                if err == 'TypeError' and stage == 'apply' and cs and which == 'dict':
+                    if r['stage'] == 'apply_fwd' and has_fmt(case, 'rc'):
+                        attributed = 'rows_cols_partial_complex_matvec'
+                    elif r['stage'] == 'apply_rev':
+                        # rows/cols partial (OMCOOSubjac bincount) or the reverse linear transfer
+                        attributed = 'complex_reverse_matvec_bincount'
+                fails.append({'what': '%s raised %s at %s%s' % (
+                    which, err, r['stage'], ' under complex step' if cs else ''),
+                    'msg': r['msg'], 'sig': {'kind': 'raises', 'variants': which, 'error': err,
+                                              'stage': stage, 'cs': cs, 'attributed': attributed}})
+        # totals through the public API
+        if 'totals' in impl:
+            ex = exact_totals(case)
+            for v, r in impl['totals'].items():
+                if 'error' in r:
+                    fails.append({'what': 'compute_totals raised %s with %s' % (r['error'], v),
+                                  'msg': r['msg'],
+                                  'sig': {'kind': 'totals_raise', 'variants': v, 'error': r['error']}})
+                    continue
+                if ex is None:
+                    continue
+                for key, val in r['tot'].items():
+                    e = ex[key]
+                    scale = max([1.0] + [abs(float(x)) for row in e for x in row])
+                    ok = all(abs(a - float(b)) <= 1e-9 * scale
+                             for ra, rb in zip(val, e) for a, b in zip(ra, rb))
+                    if not ok:
+                        att = 'dense_view_scaled_by_factor' if (v == 'dense' and
+                                                                dense_view_hazard(case)) else 'none'
+                        fails.append({'what': 'compute_totals %s differs from the exact total with %s'
+                                              % (key, v), 'got': val,
+                                      'expected': [[float(x) for x in row] for row in e],
+                                      'sig': {'kind': 'totals_mismatch', 'variants': v,
+                                              'attributed': att}})
+                        break
+        return fails
+
+    def oracle(self, case, impl):
+        from common import match_known
+        fails = self.failures(case, impl)
+        if not fails:
+            return None
+        for f in fails:
+            if match_known(self.pid, f['sig']) is None:
+                return f
+        return fails[0]
+
+    def signature(self, case, impl, failure):
+        return failure['sig']
+
+    def nontrivial(self, case, impl):
+        if self.invalid(impl):
+            return False
+        return any(len(impl['variants'][v]['obs']) > 0 for v in VARIANTS)
+
+    def bucket(self, case, impl):
+        b = ['owner=' + case['owner'], 'mode=' + case['mode']]
+        if self.invalid(impl):
+            return b + ['invalid_case']
+        b.append('do_has_repeated=%s' % do_has_repeated(case))
+        subs, n_out, n_in = case_subjacs(case)
+        if any(s['block'] == 'di' for s in subs):
+            b.append('has_dr_di')
+        for f in sorted({p['fmt'] for c in case['comps'] for p in c['parts']}):
+            b.append('fmt=' + f)
+        for c in case['comps']:
+            b.append('comp=' + c['kind'])
+            per_src = {}
+            for i in c['ins']:
+                per_src.setdefault(tuple(i['src']), []).append(i)
+                _, sshape, sunits, inside = src_info(case, i['src'])
+                b.append('levels=%d' % len(i['levels']))
+                if i['levels']:
+                    pos = chain_positions(sshape, i['levels']).ravel().tolist()
+                    if len(set(pos)) < len(pos):
+                        b.append('src_indices_repeat_element')
+                    if any(not l['flat'] for l in i['levels']):
+                        b.append('nonflat_src_indices')
+                    if 'negative' not in b and '-' in canon([l['idx'] for l in i['levels']]):
+                        b.append('negative_src_indices')
+                    if chain_positions(sshape, i['levels'][:1]).ndim >= 2:
+                        b.append('nd_index_result')
+                f = unit_factor(sunits, i['units'])
+                if f is not None:
+                    b.append('factor_exact' if (sunits, i['units']) in EXACT_UNITS else 'factor_inexact')
+            if any(len(v) > 1 for v in per_src.values()):
+                b.append('inputs_share_source')
+        ncs = sum(1 for h in case['hist'] if h[0] == 'cs')
+        b.append('cs_toggles=%d' % ncs)
+        b.append('linearizations=%d' % sum(1 for h in case['hist'] if h[0] == 'lin'))
+        if dense_view_hazard(case):
+            b.append('dense_view_hazard')
+        if case.get('totals'):
+            b.append('totals_checked')
+        for v in VARIANTS:
+            r = impl['variants'][v]
+            b.append('%s_%s' % (v, 'error:' + r['error'] + '@' + r['stage'] if 'error' in r else 'ok'))
+        return b
+
+    # -- model -----------------------------------------------------------------------------------
+    def _requests(self, case):
+        subs, n_out, n_in = case_subjacs(case)
+        lin = []
+        cs = False
+        prev_cs = False
+        for tag, (op, arg) in enumerate(case['hist']):
+            if op == 'cs':
+                cs = bool(arg)
+                continue
+            lin.append((tag, arg, cs, prev_cs))
+            prev_cs = cs
+        any_cs = any(c for _, _, c, _ in lin)
+        reqs = []
+        meta = []
+        for block, ncols in (('do', n_out), ('di', n_in)):
+            bs = [s for s in subs if s['block'] == block]
+            if not bs:
+                continue
+            jsubs = []
+            for s in bs:
+                if s['fmt'] == 'dense':
+                    pat = {'t': 'dense', 'm': s['m'], 'n': s['n']}
+                elif s['fmt'] == 'diag':
+                    pat = {'t': 'diag', 'n': s['m']}
+                else:
+                    pat = {'t': 'coo', 'rows': s['rows'], 'cols': s['cols']}
+                jsubs.append({'pat': pat, 'row0': s['row0'], 'col0': s['col0'], 'pn': s['ncol_parent'],
+                              'src': s['src'], 'factor': None if s['factor'] is None else rat(s['factor']),
+                              'nin': s['n']})
+            for part in (('re', 'im') if any_cs else ('re',)):
+                hist = []
+                for tag, k, c, pc in lin:
+                    vals = []
+                    for s in bs:
+                        pv = part_values(s['part'], k, c)
+                        if pv is None:
+                            pv = [(Fraction(-1), Fraction(0))] * len(s['rows'])
+                        vals.append([rat(a if part == 're' else b) for a, b in pv])
+                    conv = 'zero' if (part == 'im' and pc and not c) else 'id'
+                    hist.append({'conv': conv, 'vals': vals})
+                xs, ys = [], []
+                for tag, k, c, pc in lin:
+                    do, di, dr = seeds(case, n_out, n_in, c, tag)
+                    x = do if block == 'do' else di
+                    xs.append([rat(a) for a, _ in x])
+                    xs.append([rat(b) for _, b in x])
+                    ys.append([rat(a) for a, _ in dr])
+                    ys.append([rat(b) for _, b in dr])
+                reqs.append({'op': 'run', 'nrows': n_out, 'ncols': ncols, 'subs': jsubs,
+                             'whole_view': bool(self.whole_view), 'hist': hist, 'x': xs, 'y': ys})
+                meta.append((block, part))
+        # flat src_indices chains through the modelled idx_list_to_index_array
+        chains = []
+        for c in case['comps']:
+            for i in c['ins']:
+                if i['levels'] and all(l['flat'] and l['idx']['t'] == 'list' for l in i['levels']):
+                    _, sshape, _, _ = src_info(case, i['src'])
+                    reqs.append({'op': 'chain', 'n': int(np.prod(sshape)),
+                                 'levels': [l['idx']['v'] for l in i['levels']]})
+                    chains.append(chain_positions(sshape, i['levels']).ravel().tolist())
+        return reqs, meta, chains, lin, (n_out, n_in)
+
+    def model_requests(self, case, impl):
+        if self.invalid(impl):
+            return []
+        return self._requests(case)[0]
+
+    def compare(self, case, impl, answers):
+        reqs, meta, chains, lin, (n_out, n_in) = self._requests(case)
+        runs = answers[:len(meta)]
+        for a, pos in zip(answers[len(meta):], chains):
+            if a['pos'] != pos:
+                raise Infra('Lean chainIdx %s != NumPy chain %s' % (a['pos'], pos))
+        by = {m: a for m, a in zip(meta, runs)}
+        any_cs = ('do', 'im') in by or ('di', 'im') in by
+        self._scipy_contract(by)
+        tol = RTOL_UNITS if inexact(case) else None
+        ext = external_inputs(case)
+        z = Fraction(0)
+
+        def mat(block, part, path, li):
+            a = by.get((block, part))
+            ncols = n_out if block == 'do' else n_in
+            if a is None:
+                return [[z] * ncols for _ in range(n_out)]
+            return [[unrat(x) for x in row] for row in a['steps'][li][path]]
+
+        def vecs(block, part, key, li):
+            """(result on the real seed, result on the imaginary seed) of one request."""
+            a = by.get((block, part))
+            n = n_out if key.startswith('fwd') else (n_out if block == 'do' else n_in)
+            if a is None:
+                return [z] * n, [z] * n
+            r = a['steps'][li][key]
+            return [unrat(x) for x in r[2 * li]], [unrat(x) for x in r[2 * li + 1]]
+
+        def cplx(block, key, li):
+            rr, ri = vecs(block, 're', key, li)
+            if any_cs:
+                ir, ii = vecs(block, 'im', key, li)
+            else:
+                ir, ii = [z] * len(rr), [z] * len(rr)
+            return [(a - d, b + c) for a, b, c, d in zip(rr, ri, ir, ii)]
+
+        paths = {'dense': ('dense', 'csr'), 'csc': ('csc', 'csr'), 'csr': ('csr', 'csr'),
+                 'dict': ('dict', 'dict')}
+        for v in VARIANTS:
+            r = impl['variants'][v]
+            # sub-jacobian order of the real matrices (only matters for the dense view scaling)
+            if v != 'dict' and r.get('keys_do') is not None:
+                subs = case_subjacs(case)[0]
+                mine = [s['key'] for s in subs if s['block'] == 'do']
+                if mine != r['keys_do']:
+                    raise Infra('dr/do sub-jacobian order: harness %s, OpenMDAO %s' % (mine, r['keys_do']))
+            pdo, pdi = paths[v]
+            for li, ob in enumerate(r['obs']):
+                if v != 'dict':
+                    Jm = []
+                    for row in range(n_out):
+                        rdo_re = mat('do', 're', pdo, li)[row]
+                        rdi_re = mat('di', 're', pdi, li)[row]
+                        rdo_im = mat('do', 'im', pdo, li)[row] if any_cs else [z] * n_out
+                        rdi_im = mat('di', 'im', pdi, li)[row] if any_cs else [z] * n_in
+                        Jm.extend(zip(rdo_re + rdi_re, rdo_im + rdi_im))
+                    if not _close(_dec(ob['J']), Jm, tol):
+                        return '%s step %d: todense differs from the modelled %s/%s path' % (
+                            v, ob['tag'], pdo, pdi)
+                fdo = cplx('do', 'fwd_' + pdo, li)
+                fdi = cplx('di', 'fwd_' + pdi, li)
+                fwd = [cadd(a, b) for a, b in zip(fdo, fdi)]
+                if not _close(_dec(ob['fwd']), fwd, tol):
+                    return '%s step %d: forward product differs from the modelled %s/%s path' % (
+                        v, ob['tag'], pdo, pdi)
+                if 'rev_o' not in ob:
+                    continue
+                rvo = cplx('do', 'rev_' + pdo, li)
+                if not _close(_dec(ob['rev_o']), rvo, tol):
+                    return '%s step %d: reverse product (outputs) differs from the modelled %s path' % (
+                        v, ob['tag'], pdo)
+                rvi = cplx('di', 'rev_' + pdi, li)
+                rvi = [x if e else (z, z) for x, e in zip(rvi, ext)]
+                if not _close(_dec(ob['rev_i']), rvi, tol):
+                    return '%s step %d: reverse product (inputs) differs from the modelled %s path' % (
+                        v, ob['tag'], pdi)
+        return None
+
+    def _scipy_contract(self, by):
+        """scipy's csc/csr of a COO pattern has one slot per distinct position in column/row-major
+        order — the contract under which the modelled slot map is read (infrastructure check)."""
+        sp = _om()['sp']
+        for (block, part), a in by.items():
+            if part != 're' or not a['pos']:
+                continue
+            rows = np.array([p[0] for p in a['pos']])
+            cols = np.array([p[1] for p in a['pos']])
+            shape = (int(rows.max()) + 1, int(cols.max()) + 1)
+            ones = np.ones(len(rows))
+            csc = sp.csc_matrix((ones, (rows, cols)), shape=shape)
+            got = [[int(r), c] for c in range(shape[1])
+                   for r in csc.indices[csc.indptr[c]:csc.indptr[c + 1]]]
+            if got != a['csc_uniq']:
+                raise Infra('scipy csc structure %s != modelled slot positions %s' % (got, a['csc_uniq']))
+            csr = sp.csr_matrix((ones, (rows, cols)), shape=shape)
+            got = [[r, int(c)] for r in range(shape[0])
+                   for c in csr.indices[csr.indptr[r]:csr.indptr[r + 1]]]
+            if got != a['csr_uniq']:
+                raise Infra('scipy csr structure %s != modelled slot positions %s' % (got, a['csr_uniq']))
+            if bool((csc.data > 1.0).any()) != a['rep']:
+                raise Infra('has_repeated differs')
+
+
+# minimal model of the DenseMatrix view-scaling defect (also the probe of `setup`)
+CORPUS_DENSE_VIEW = {
+    'owner': 'model', 'vseed': 1, 'mode': 'nodup', 'totals': True,
+    'srcs': [{'name': 's0', 'shape': [4], 'units': 'm'}],
+    'comps': [{'name': 'c0', 'kind': 'exp', 'wrap': False,
+               'ins': [{'name': 'x0', 'size': 2, 'shape': [2], 'units': 'cm', 'src': ['ivc', 's0'],
+                        'levels': [{'idx': {'t': 'list', 'v': [0, 1]}, 'flat': True}]},
+                       {'name': 'x1', 'size': 2, 'shape': [2], 'units': 'cm', 'src': ['ivc', 's0'],
+                        'levels': [{'idx': {'t': 'list', 'v': [2, -1]}, 'flat': True}]}],
+               'outs': [{'name': 'y0', 'shape': [2], 'units': None}],
+               'parts': [{'of': 'y0', 'wrt': 'x0', 'fmt': 'dense', 'rows': [0, 0, 1, 1],
+                          'cols': [0, 1, 0, 1], 'const': False,
+                          'vals': [[1, 2, 3, 4]] * 3, 'ivals': [[0, 0, 0, 0]] * 3},
+                         {'of': 'y0', 'wrt': 'x1', 'fmt': 'dense', 'rows': [0, 0, 1, 1],
+                          'cols': [0, 1, 0, 1], 'const': False,
+                          'vals': [[5, 6, 7, 8]] * 3, 'ivals': [[0, 0, 0, 0]] * 3}]}],
+    'hist': [['lin', 0]],
+}
+
+PROP = C11()
